@@ -212,8 +212,8 @@ POOL = 6000          # the fixed pool of generated documents: gen/0 .. gen/POOL-
 SYS_POOL = 8000
 
 
-def documents(n, seed_):
-    """n documents of the fixed pool; VERIF_SEED only chooses WHICH ones (so that every run explores a subset of what
-    the thorough tier explores completely, and known findings can be keyed by document)."""
-    idx = range(POOL) if n >= POOL else sorted(random.Random(seed_).sample(range(POOL), n))
+def documents(n, seed_, pool=POOL):
+    """n documents of the fixed pool gen/0 .. gen/pool-1; VERIF_SEED only chooses WHICH ones (so that every run explores a
+    subset of what the thorough tier explores completely, and known findings can be keyed by document)."""
+    idx = range(pool) if n >= pool else sorted(random.Random(seed_).sample(range(pool), n))
     return [("gen/%d" % i, document(i)) for i in idx]
